@@ -122,7 +122,7 @@ def drain (c : Cfg) : Nat → List String → Cfg × List String
       let (c', toks) := stepTid c t
       drain c' fuel (acc ++ toks)
 
-def drainCap : Nat := 400
+def drainCap : Nat := 5000
 
 def showOp : Op → String
   | .push v => s!"push{v}"
